@@ -10,6 +10,12 @@ CLAIMED = {
     text='TLC enumerates the complete phased Pauli group for n=1,2 (n=3 thorough) as a state machine and proves on every state / ordered pair that the binary algebra equals the matrix algebra over Z[i] and that all conversion cycles are the identity; every state and every ordered pair is then replayed into numqi.gate (single and batched code paths) and compared exactly; recorded calls on random operators up to n=12 (index forms up to 4^31) are validated event by event by TLC against the same specification.',
     note='Trusted: TLC/SANY, the TLA+ value parser, exact integer comparison in Python. Exhaustive for n<=2 (quick) / n<=3 (thorough); sampled beyond.',
     technique='TLA+ spec of the Pauli group + TLC exhaustive model checking; state-graph replay into the code and TLC trace validation of recorded calls'),
+
+ 'C07': dict(
+    cat='model_checking', ref='6/C07',
+    text='TLC derives the elementary gate tableaux from the dense gate matrices by conjugation over Z[i], generates the complete 1- and 2-qubit Clifford groups modulo phase by closure (24 and 11520 states = every (r,S) with S in Sp(2n,F2) and every phase vector) checking the phase-exact automorphism law and composition = sequential application in every state, and enumerates every interleaving of append/query/apply/export of the CliffordCircuit state machine up to a bounded length. Every group element is replayed through the real CliffordCircuit, apply_clifford_on_pauli, clifford_array_to_F2 and the state-vector simulator (U^dagger P U); every history is executed on a real object and the recorded trace is validated by TLC against the cache-free specification, so a query that does not reflect all appended gates is rejected.',
+    note='Trusted: TLC/SANY, value parser, exact integer comparison; dense comparisons use tolerance 1e-9. Exhaustive for n<=2 and histories of length <=3 (<=4 with vocabulary {H,S,CX}; full vocabulary in thorough); random histories to length 40 on <=4 qubits.',
+    technique='TLA+ state-machine spec of CliffordCircuit + Pauli-automorphism tableau; TLC exhaustive closure/interleaving model checking; replay of the state graph into the code; TLC trace validation of recorded histories'),
 }
 
 NOT_APPLICABLE = {
